@@ -1501,4 +1501,46 @@ def envTimeout : Env := { env with timedOut := fun k => k ≥ 1 }
 
 end Ex
 
+/-- a line ends exactly when its last performed step stops (or at once, when it has no step) -/
+theorem runLine_end_attained (env : Env) (ao a sc ln : Nat) (actor : String) (k t : Nat) (steps : List Step) :
+    ((runLine env ao a sc ln actor k t steps).1 = [] ∧ (runLine env ao a sc ln actor k t steps).2.1 = t) ∨
+    ∃ r ∈ (runLine env ao a sc ln actor k t steps).1, r.stop = (runLine env ao a sc ln actor k t steps).2.1 := by
+  induction steps generalizing k t with
+  | nil => left; simp [runLine]
+  | cons st rest ih =>
+    right
+    simp only [runLine]
+    split
+    · exact ⟨_, List.mem_singleton.mpr rfl, rfl⟩
+    · rcases ih (k + 1) (t + (env.occ ⟨ao, a, sc, ln, k⟩).jitter + (env.occ ⟨ao, a, sc, ln, k⟩).dur) with ⟨h1, h2⟩ | ⟨r, hr, he⟩
+      · refine ⟨_, List.mem_cons_self, ?_⟩
+        simp only [h2]
+      · exact ⟨r, List.mem_cons_of_mem _ hr, he⟩
+
+/-- the WaitGroup of a scene releases exactly when the last action of the scene stops -/
+theorem runScene_end_attained (env : Env) (ao a sc t ln : Nat) (lines : List Line) :
+    ((runScene env ao a sc t ln lines).1 = [] ∧ (runScene env ao a sc t ln lines).2.1 = t) ∨
+    ∃ r ∈ (runScene env ao a sc t ln lines).1, r.stop = (runScene env ao a sc t ln lines).2.1 := by
+  induction lines generalizing ln with
+  | nil => left; simp [runScene]
+  | cons l rest ih =>
+    have hx := runLine_end_attained env ao a sc ln l.actor 0 t l.steps
+    have hy := ih (ln + 1)
+    have hxl := runLine_le env ao a sc ln l.actor 0 t l.steps
+    have hyl := runScene_le env ao a sc t (ln + 1) rest
+    simp only [runScene]
+    rcases Nat.le_total (runLine env ao a sc ln l.actor 0 t l.steps).2.1 (runScene env ao a sc t (ln + 1) rest).2.1 with hle | hle
+    · rw [Nat.max_eq_right hle]
+      rcases hy with ⟨h1, h2⟩ | ⟨r, hr, he⟩
+      · rcases hx with ⟨g1, g2⟩ | ⟨r, hr, he⟩
+        · left; exact ⟨by rw [g1, h1]; rfl, h2⟩
+        · right; exact ⟨r, List.mem_append_left _ hr, by omega⟩
+      · right; exact ⟨r, List.mem_append_right _ hr, he⟩
+    · rw [Nat.max_eq_left hle]
+      rcases hx with ⟨g1, g2⟩ | ⟨r, hr, he⟩
+      · rcases hy with ⟨h1, h2⟩ | ⟨r, hr, he⟩
+        · left; exact ⟨by rw [g1, h1]; rfl, g2⟩
+        · right; exact ⟨r, List.mem_append_right _ hr, by omega⟩
+      · right; exact ⟨r, List.mem_append_left _ hr, he⟩
+
 end Shk.Prompt
